@@ -59,6 +59,7 @@ type Prog struct {
 	scanCutMemo     map[*ssa.Function]scanCutRes
 	resolving       map[*ssa.Function]bool
 	staticCallersOf map[*ssa.Function][]ssa.CallInstruction
+	wrapMemo        map[*ssa.Function]*wrapInfo
 }
 
 // Load type-checks and builds SSA for the three library packages and all
